@@ -311,30 +311,27 @@ fn parse_coords(v: &Value) -> Result<Vec<Pt>, String> {
         .collect()
 }
 
+fn parse_feature(f: &Value) -> Result<(u64, EtP, Vec<Pt>), String> {
+    let fo = f.as_object().ok_or("feature-not-object")?;
+    if fo.get("type").and_then(|t| t.as_str()) != Some("Feature") {
+        return Err("feature-type".to_string());
+    }
+    let id = fo.get("id").and_then(|x| x.as_u64()).ok_or("feature-id")?;
+    let props = parse_et(fo.get("properties").ok_or("properties")?)?;
+    let g = fo.get("geometry").and_then(|g| g.as_object()).ok_or("geometry")?;
+    if g.get("type").and_then(|t| t.as_str()) != Some("LineString") {
+        return Err("geometry-type".to_string());
+    }
+    let pts = parse_coords(g.get("coordinates").ok_or("coordinates")?)?;
+    Ok((id, props, pts))
+}
+
 fn parse_features(v: &Value) -> Result<Vec<(u64, EtP, Vec<Pt>)>, String> {
     let o = v.as_object().ok_or("fc-not-object")?;
     if o.get("type").and_then(|t| t.as_str()) != Some("FeatureCollection") {
         return Err("fc-type".into());
     }
-    o.get("features")
-        .and_then(|f| f.as_array())
-        .ok_or("features")?
-        .iter()
-        .map(|f| {
-            let fo = f.as_object().ok_or("feature-not-object")?;
-            if fo.get("type").and_then(|t| t.as_str()) != Some("Feature") {
-                return Err("feature-type".to_string());
-            }
-            let id = fo.get("id").and_then(|x| x.as_u64()).ok_or("feature-id")?;
-            let props = parse_et(fo.get("properties").ok_or("properties")?)?;
-            let g = fo.get("geometry").and_then(|g| g.as_object()).ok_or("geometry")?;
-            if g.get("type").and_then(|t| t.as_str()) != Some("LineString") {
-                return Err("geometry-type".to_string());
-            }
-            let pts = parse_coords(g.get("coordinates").ok_or("coordinates")?)?;
-            Ok((id, props, pts))
-        })
-        .collect()
+    o.get("features").and_then(|f| f.as_array()).ok_or("features")?.iter().map(parse_feature).collect()
 }
 
 /// `x y, x y, …`
@@ -956,6 +953,17 @@ fn ops_case(ctx: &mut Ctx, idx: usize, table: &[Vec<Pt>], route: &[Et], tree: &[
             parts.push(format!("edge {}", res_line(ops::create_edge_geometry(e, &geoms), |l| join(&num_line(&line_of_geo32(l))))));
         } else {
             parts.push("edge none".into());
+        }
+        // create_geojson_feature on the first edge that has a row
+        match rr.iter().find(|e| e.edge_id.0 < geoms.len()) {
+            Some(e) => parts.push(format!(
+                "feature {}",
+                res_line(ops::create_geojson_feature(e, geoms[e.edge_id.0].clone()), |f| match serde_json::to_value(f).map_err(|_| "serialize".to_string()).and_then(|v| parse_feature(&v)) {
+                    Ok(pf) => join(&feat_nums(&pf)),
+                    Err(k) => format!("unparsable {}", k),
+                })
+            )),
+            None => parts.push("feature none".into()),
         }
         if let Some(b) = tree.first() {
             let rb = SearchTreeBranch { terminal_vertex: VertexId(b.terminal), edge_traversal: real_et(&b.et) };
